@@ -1,4 +1,5 @@
 import BearVerif.Lemmas.BearCompile3
+import BearVerif.Lemmas.BearTable
 /-!
   C01 — no false alarms. Statements only use definitions of `Core/Bear.lean` and
   `Core/BearExpr.lean`: `sat` is the published meaning at full depth, `chk` the sampled
@@ -41,6 +42,17 @@ theorem C01_no_false_alarm (W : World) (hW : W.Wf) (h : Hint) (x : Obj)
 theorem C01_ignorable_accepts (W : World) (conf : Conf) (r : Nat) (h : Hint) (x : Obj) (hi : h.ignorable = true) :
     chk W conf r h x = true :=
   chk_ignorable W conf r h x hi
+
+/-- **The same, with every hypothesis decidable**: for a finite class table (the one the
+    harness extracts from the running interpreter for each run) the side conditions are
+    Boolean checks — `t.checkWf`, `h.capsOk t`, `x.wf` — which the driver evaluates for EVERY
+    case of the behaviour tie and the harness requires to be true (evidence:
+    `hypotheses_checked`). -/
+theorem C01_no_false_alarm_table (t : Table) (pred : Nat → Obj → Bool) (h : Hint) (x : Obj)
+    (hn : 4 ≤ t.rows.length) (hwf : t.checkWf = true) (hcaps : h.capsOk t = true) (hi : h.ignorable = false)
+    (hx : x.wf (t.world pred) = true) (hs : sat (t.world pred) h x = true) :
+    ∀ (conf : Conf) (r : Nat), ∃ env' n, eval (t.world pred) r (rootEnv x) (genRoot conf h) = some (.bool true, env', n) :=
+  C01_no_false_alarm (t.world pred) (t.wf_of_check pred hn hwf) h x (Hint.wfIn_of_capsOk t pred h hcaps) hi hx hs
 
 /-! ### non-vacuity: a concrete world, hint and object meeting every hypothesis -/
 
